@@ -130,8 +130,8 @@ def dump(doc):
     return sf.getvalue()
 
 
-def run(case, overwrite, keep=False):
-    doc = build(case)
+def run(case, overwrite, keep=False, doc=None):
+    doc = build(case) if doc is None else doc
     before = walk(doc)  # keeps every object alive: id() stays unique
     emb_before = [(c.morphology, c.biophysical_properties) for c in all_cells(doc)]
     r = {"outcome": "ok", "output": [], "out_lists": [], "pattern": [], "same_doc": None, "dump_out": "",
@@ -214,17 +214,21 @@ def cell_xml(c):
     return "<%s%s>%s</%s>" % (el, at, body, el)
 
 
-def run_parser(case, root):
-    """the same document as a file, read the way NeuroMLXMLParser.parse does it (include resolution, then the fix)"""
-    from neuroml.hdf5.DefaultNetworkHandler import DefaultNetworkHandler
-    from neuroml.hdf5.NeuroMLXMLParser import NeuroMLXMLParser
-
+def write_main(case, root):
     body = "".join('<include href="%s"/>' % f["href"] for f in case["incs"])
     body += "".join(obj_xml("m", o) for o in case["morphs"]) + "".join(obj_xml("b", o) for o in case["bios"])
     body += "".join(cell_xml(c) for c in case["cells"] if c["list"] == "cells")
     body += "".join(cell_xml(c) for c in case["cells"] if c["list"] == "cells2")
     with open(os.path.join(root, "main.nml"), "w") as fh:
         fh.write('<neuroml %s id="main">%s</neuroml>' % (NS, body))
+
+
+def run_parser(case, root):
+    """the same document as a file, read the way NeuroMLXMLParser.parse does it (include resolution, then the fix)"""
+    from neuroml.hdf5.DefaultNetworkHandler import DefaultNetworkHandler
+    from neuroml.hdf5.NeuroMLXMLParser import NeuroMLXMLParser
+
+    write_main(case, root)
     r = {"outcome": "ok", "output": [], "detail": ""}
     try:
         p = NeuroMLXMLParser(DefaultNetworkHandler())
@@ -261,6 +265,11 @@ def write_incs(case, root):
                 d.morphology.append(mk_obj("m", o))
             for o in inc["bios"]:
                 d.biophysical_properties.append(mk_obj("b", o))
+            for n in inc.get("nested", []):  # the embedded XML has includes of its own: the HDF5 loader always resolves them
+                d.includes.append(neuroml.IncludeType(href=n["href"]))
+                nb = "".join(obj_xml("m", o) for o in n["morphs"]) + "".join(obj_xml("b", o) for o in n["bios"])
+                with open(os.path.join(root, n["href"]), "w") as fh:
+                    fh.write('<neuroml %s id="nested">%s</neuroml>' % (NS, nb))
             W.NeuroMLHdf5Writer.write(d, path)
         else:
             body = "".join(obj_xml("m", o) for o in inc["morphs"]) + "".join(obj_xml("b", o) for o in inc["bios"])
@@ -273,7 +282,21 @@ KEEP = []  # objects of earlier calls of a history, kept alive for the identity 
 
 def exec_case(case, root, keep=False):
     write_incs(case, root)
-    res = {"true": run(case, True, keep), "false": run(case, False, keep)}
+    if case.get("pre_read"):
+        # an ordinary read of the including file, default arguments, before the references are resolved
+        import neuroml.loaders as L
+        write_main(case, root)
+        try:
+            L.read_neuroml2_file("main.nml", include_includes=True)
+        except BaseException:
+            pass
+    if case.get("same_doc"):
+        # the SAME document resolved twice: overwrite=False (leaves it unchanged), then overwrite=True
+        doc = build(case)
+        rf = run(case, False, keep, doc=doc)
+        res = {"false": rf, "true": run(case, True, keep, doc=doc)}
+    else:
+        res = {"true": run(case, True, keep), "false": run(case, False, keep)}
     if case.get("via_parser"):
         res["parser"] = run_parser(case, root)
     return res
